@@ -185,16 +185,24 @@ fn caught_from(payload: Box<dyn Any + Send>) -> Caught {
     }
 }
 
-/// Default iteration budget for a guarded library call; large enough for
-/// every legitimate computation on the inputs we generate, small enough to
-/// turn a hang into an event within a second or so.
-pub const DEFAULT_FUEL: u64 = 20_000_000;
+/// Default iteration budget for a guarded library call: about five times the largest count any
+/// legitimate call needed on the unchanged tree (120 000 in the thorough tiers, reported in the evidence of every run as
+/// `max_instrumented_loop_iterations_in_one_guarded_library_call`), small enough that a runaway loop
+/// whose iterations get more expensive as it proceeds still ends within a minute.
+pub const DEFAULT_FUEL: u64 = 600_000;
 
 /// Run library code with panics captured and the loop budget armed.
+pub static MAX_TICKS_PER_CALL: AtomicU64 = AtomicU64::new(0);
+
 pub fn guard_fuel<T>(fuel: u64, f: impl FnOnce() -> T) -> Result<T, Caught> {
+    let before = hooks::ticks();
     hooks::set_fuel(Some(fuel));
     let r = catch_unwind(AssertUnwindSafe(f));
     hooks::set_fuel(None);
+    let used = hooks::ticks().wrapping_sub(before);
+    if r.is_ok() {
+        MAX_TICKS_PER_CALL.fetch_max(used, Ordering::Relaxed);
+    }
     r.map_err(caught_from)
 }
 
@@ -298,6 +306,13 @@ pub fn run(mon: &dyn Monitor, cfg: &RunConfig) -> RunSummary {
     let in_flight: Vec<AtomicU64> = (0..cfg.threads).map(|_| AtomicU64::new(u64::MAX)).collect();
     let all_done = AtomicBool::new(false);
     let slot_counter = AtomicU64::new(0);
+    let violation_count = AtomicU64::new(0);
+    let known_signatures: HashSet<String> = load_known_findings(&format!("{}/known_findings.json", cfg.verif_dir))
+        .unwrap_or_default()
+        .into_iter()
+        .filter(|k| k.property == mon.id() && k.status == "known")
+        .map(|k| k.signature)
+        .collect();
     std::thread::scope(|scope| {
         {
             let (in_flight, all_done) = (&in_flight, &all_done);
@@ -386,6 +401,12 @@ pub fn run(mon: &dyn Monitor, cfg: &RunConfig) -> RunSummary {
                         if local.violations.len() < 200 {
                             local.violations.push((i, cs, v));
                         }
+                        // enough witnesses: do not spend minutes collecting thousands more
+                        if !known_signatures.contains(&local.violations.last().map(|x| x.2.signature.clone()).unwrap_or_default())
+                            && violation_count.fetch_add(1, Ordering::Relaxed) >= 400
+                        {
+                            stop.store(true, Ordering::Relaxed);
+                        }
                     }
                     if let Some(r) = rep.inconclusive {
                         if local.inconclusive.len() < 20 {
@@ -460,7 +481,7 @@ pub fn run(mon: &dyn Monitor, cfg: &RunConfig) -> RunSummary {
     if m.evaluations < total {
         // the time cap fired: coverage is what was measured, but say so
         println!(
-            "NOTE property={} time cap {}s reached after {} of {} cases",
+            "NOTE property={} stopped early (time cap {}s, or more than 400 violations collected) after {} of {} cases",
             mon.id(),
             cfg.max_seconds,
             m.evaluations,
@@ -526,6 +547,7 @@ pub fn run(mon: &dyn Monitor, cfg: &RunConfig) -> RunSummary {
             ("exhaustive".to_string(), Json::from(mon.exhaustive(cfg.tier))),
             ("profile".to_string(), Json::from(profile())),
             ("planned_cases".to_string(), Json::from(total)),
+            ("max_instrumented_loop_iterations_in_one_guarded_library_call".to_string(), Json::from(MAX_TICKS_PER_CALL.load(Ordering::Relaxed))),
             ("observed".to_string(), Json::Obj(observed)),
             (
                 "known_findings_observed".to_string(),
@@ -574,6 +596,7 @@ pub fn run(mon: &dyn Monitor, cfg: &RunConfig) -> RunSummary {
         }
     }
 
+    println!("NOTE property={} max loop iterations in one guarded library call: {}", mon.id(), MAX_TICKS_PER_CALL.load(Ordering::Relaxed));
     println!(
         "SUMMARY property={} tier={} profile={} seed={} cases={} distinct_nontrivial={} new_violations={} known_findings={} wall_s={:.1} verdict={}",
         mon.id(),
